@@ -229,9 +229,19 @@ fn stop(mut s: Srv) -> bool {
 
 /// One client of a C12 history.  kinds: g gate+200, e gate+500, p gate+panic, d gate+drop, m malformed, a abort mid-head,
 /// u abort mid-upload, k keep-alive then close, r two requests on one connection.
-fn client(addr: SocketAddr, kind: char, id: usize, delay_ms: u64) -> String {
+/// Upper-case E, P, D, M: as the lower-case kind, but the client keeps its socket open after the server has answered
+/// and closed its side (the slot must come back without the client's help).
+fn client(addr: SocketAddr, kind: char, id: usize, delay_ms: u64) -> (String, Option<TcpStream>) {
     std::thread::sleep(Duration::from_millis(delay_ms));
-    let Some(mut c) = connect(addr) else { return "noconn".to_string() };
+    let Some(mut c) = connect(addr) else { return ("noconn".to_string(), None) };
+    let linger = kind.is_ascii_uppercase();
+    let kind = kind.to_ascii_lowercase();
+    let out = client_run(&mut c, kind, id);
+    (out, if linger { Some(c) } else { None })
+}
+
+fn client_run(c: &mut TcpStream, kind: char, id: usize) -> String {
+    let mut c = c;
     match kind {
         'g' | 'e' | 'p' | 'd' => {
             if c.write_all(format!("GET /gate/{kind}/{id} HTTP/1.1\r\n\r\n").as_bytes()).is_err() { return "wfail".to_string(); }
@@ -275,7 +285,7 @@ pub fn case_limit(ctx: &mut Ctx, n: &str, kinds: &str, delays: &str) {
     let delays_v: Vec<u64> = delays.split(',').map(|d| d.parse().unwrap()).collect();
     let obs = guard(move || {
         let srv = start(nn);
-        let gated = kinds_v.iter().filter(|k| "gepd".contains(**k)).count();
+        let gated = kinds_v.iter().filter(|k| "gepdEPD".contains(**k)).count();
         let handles: Vec<_> = kinds_v.iter().enumerate().map(|(i, &k)| {
             let (addr, d) = (srv.addr, delays_v[i]);
             std::thread::spawn(move || client(addr, k, i, d))
@@ -297,7 +307,7 @@ pub fn case_limit(ctx: &mut Ctx, n: &str, kinds: &str, delays: &str) {
             }
         }
         release_all();
-        let outs: Vec<String> = handles.into_iter().map(|h| h.join().unwrap_or_else(|_| "panic".to_string())).collect();
+        let (outs, lingering): (Vec<String>, Vec<Option<TcpStream>>) = handles.into_iter().map(|h| h.join().unwrap_or_else(|_| ("panic".to_string(), None))).unzip();
         let max1 = gate().0.lock().unwrap().max;
         // phase 3: after the history the full number can be serviced again
         {
@@ -309,7 +319,8 @@ pub fn case_limit(ctx: &mut Ctx, n: &str, kinds: &str, delays: &str) {
         let fresh: Vec<_> = (0..nn).map(|j| { let addr = srv.addr; std::thread::spawn(move || client(addr, 'g', 1000 + j, 0)) }).collect();
         let full = wait_gauge(|g| g.entered >= nn, Duration::from_secs(8));
         release_all();
-        let fresh_ok = fresh.into_iter().map(|h| h.join().unwrap_or_default()).filter(|r| r == "200").count();
+        let fresh_ok = fresh.into_iter().map(|h| h.join().map(|r| r.0).unwrap_or_default()).filter(|r| r == "200").count();
+        drop(lingering);
         let max2 = gate().0.lock().unwrap().max;
         let stopped = stop(srv);
         format!("max={} reached={} full={} fresh={fresh_ok} stopped={} out={}", max1.max(max2), u8::from(reached), u8::from(full), u8::from(stopped), outs.join(","))
@@ -396,7 +407,7 @@ pub fn run_tokens(ctx: &mut Ctx) {
 pub fn run_limit(ctx: &mut Ctx) {
     let mut rng = Rng::new(ctx.seed.wrapping_add(12));
     let count = if ctx.thorough() { 160 } else { 24 };
-    let all = ['g', 'e', 'p', 'd', 'm', 'a', 'u', 'k', 'r'];
+    let all = ['g', 'e', 'p', 'd', 'm', 'a', 'u', 'k', 'r', 'E', 'P', 'D', 'M'];
     for idx in 0..count {
         let n = 1 + (idx as usize % 4);
         let clients = rng.range(2 * n as u64, 3 * n as u64) as usize;
